@@ -22,7 +22,8 @@ def queries(tier, seed, build):
           rel_query(BY_NAME["nt"], "c01-nt", "REL_RT", max_p=6)]
     # stretching methods: lengths are case-split (concrete per query), contents symbolic
     grid = [("md5crypt", 2, 9)] if tier == "quick" else \
-        [(n, pl, sl) for n in ("md5crypt", "sunmd5", "sunmd5-comma", "sha1crypt") for pl, sl in ((0, 1), (2, 4), (2, 9), (3, 12))]
+        [(n, pl, sl) for n in ("md5crypt", "sunmd5", "sunmd5-comma", "sha1crypt") for pl, sl in ((0, 1), (2, 4), (2, 9), (3, 12))
+         if not (n == "sha1crypt" and sl < 3)]      # a sha1crypt tail needs at least "N$s"
     for n, pl, sl in grid:
         for part in (("RT_SELF_ONLY",) if tier == "quick" else ("RT_SELF_ONLY", "RT_ALT_ONLY")):
             qs.append(rel_query(BY_NAME[n], "c01-%s-p%d-s%d-%s" % (n, pl, sl, part[3:7].lower()), "REL_RT", max_p=max(pl, 1), max_s=max(sl, 1),
